@@ -4,6 +4,7 @@ import (
 	"encoding/binary"
 	"fmt"
 	"math/bits"
+	"os"
 	"sort"
 	"strings"
 
@@ -151,6 +152,39 @@ func insertBefore(g *Gen, cands []Candidate, c Candidate, critical []basics.Addr
 		}
 		ts := map[basics.Address]bool{}
 		touched(cands[i].Txns, ts)
+		// an asset destroyed (or reconfigured) by its manager and an application deleted by a caller other than the
+		// creator change the CREATOR's account (parameters removed, minimum balance down) although the creator is
+		// named nowhere in the transaction (thorough sweep, C19 seed 101: a "min-balance" poison was legitimately
+		// accepted after such a group)
+		for j := range cands[i].Txns {
+			t := &cands[i].Txns[j].Txn
+			if t.Type == protocol.AssetConfigTx && t.ConfigAsset != 0 {
+				if cr, ok := g.st.Creators[creatKey{basics.CreatableIndex(t.ConfigAsset), basics.AssetCreatable}]; ok {
+					if os.Getenv("VERIF_DEBUG_NOCREATORTOUCH") != "" {
+						for _, a := range critical {
+							if a == cr && !ts[cr] {
+								fmt.Fprintf(os.Stderr, "DEBUG creator-touch: acfg of asset %d by %s changes critical creator %s\n", t.ConfigAsset, shortAddr(t.Sender), shortAddr(cr))
+							}
+						}
+						continue
+					}
+					ts[cr] = true
+				}
+			}
+			if t.Type == protocol.ApplicationCallTx && t.ApplicationID != 0 {
+				if cr, ok := g.st.Creators[creatKey{basics.CreatableIndex(t.ApplicationID), basics.AppCreatable}]; ok {
+					if os.Getenv("VERIF_DEBUG_NOCREATORTOUCH") != "" {
+						for _, a := range critical {
+							if a == cr && !ts[cr] {
+								fmt.Fprintf(os.Stderr, "DEBUG creator-touch: call of app %d (oc %d) by %s may change critical creator %s\n", t.ApplicationID, t.OnCompletion, shortAddr(t.Sender), shortAddr(cr))
+							}
+						}
+						continue
+					}
+					ts[cr] = true
+				}
+			}
+		}
 		hit := false
 		for _, a := range critical {
 			if ts[a] {
